@@ -29,9 +29,29 @@ def opPlaquettes (j : Json) : Except String Json := do
         ("cx", jint p.cnum.1), ("cy", jint p.cnum.2)])
   pure (Json.mkObj [("walks", Json.arr pj.toArray), ("rot", jlist jnats T.toList)])
 
+/-- fluxes of the model's own plaquettes for a batch of bond configurations -/
+def opFluxes (j : Json) : Except String Json := do
+  let L ← parseLat j
+  if !L.noSelfLoop then throw "precondition:self-loop"
+  let R := rotOfTable (rotTable L)
+  if anyStuck L R then throw "stuck"
+  let ps := plaquettes L R
+  let us ← listOf ints (← field j "us")
+  if us.any (fun u => u.length != L.E) then throw "u-length"
+  let variant ← str (← field j "variant")
+  let signReal ← match fieldOpt j "sign_real" with | some s => ints s | none => pure []
+  let res ← us.mapM fun u => match variant with
+    | "real" => pure (jints (ps.map fun p => flux (uOf u) p.darts))
+    | "complex" => pure (jlist jpairI (ps.map fun p => fluxC (uOf u) p.darts))
+    | "old" => pure (jints (ps.map fun p => fluxOld signReal (uOf u) p.darts))
+    | _ => throw "bad-variant"
+  pure (Json.mkObj [("fluxes", Json.arr res.toArray), ("nplaq", jnat ps.length),
+                    ("sides", jnats (ps.map fun p => p.darts.length))])
+
 def dispatch (op : String) (j : Json) : Except String Json :=
   match op with
   | "plaquettes" => opPlaquettes j
+  | "fluxes" => opFluxes j
   | _ => throw "bad-op"
 
 def handle (line : String) : String :=
